@@ -542,6 +542,31 @@ func runC09(seed int64, n int, tier string, outDir string) (*Report, error) {
 			}
 		}
 	}
+	// ---- 4b. sensitivity, directed: every activity property of every transitive activity type, the type name written
+	//          in canonical, lower and upper case (type names compare ignoring case, so "create" is a Create)
+	for _, t := range ap.ActivityTypes {
+		for ci, tn := range []string{string(t), strings.ToLower(string(t)), strings.ToUpper(string(t))} {
+			for _, f := range c09ActivityFields {
+				base := &ap.Activity{ID: "https://example.com/directed-activity", Type: ap.ActivityVocabularyType(tn)}
+				ft := reflect.ValueOf(base).Elem().FieldByName(f).Type()
+				va, vb := c09TwoValues(g, ft)
+				a, b := c09With(base, f, va), c09With(base, f, vb)
+				rab, pab, mab := c09Eq(a, b)
+				rba, pba, mba := c09Eq(b, a)
+				rep.Evaluations += 2
+				rep.Count("sensitive:directed-activity")
+				if pab || rab {
+					violate("ItemsEqual(x, x with "+f+" changed)", a, b, "false", show(rab, pab, mab), "")
+				}
+				if pba || rba {
+					violate("ItemsEqual(x with "+f+" changed, x)", b, a, "false", show(rba, pba, mba), "")
+				}
+				if ci > 0 && f == c09ActivityFields[(len(tn)+ci)%len(c09ActivityFields)] {
+					emit(a, b, fmt.Sprintf("directed activity %s.%s", tn, f))
+				}
+			}
+		}
+	}
 	// ---- 4. sensitivity: one core property (or, for a transitive activity, one activity property) changed
 	for i := 0; i < n/2; i++ {
 		o := c09Opts()
